@@ -77,9 +77,11 @@ def subgroupsOf (seg : Segment) (k : Str) : List Str :=
 /-- `emit_section_for_file` + `emit_file`, one function structurally recursive on the fuel
 (both the descent into a group and the descent into a sub-group consume one unit). -/
 def emitEntry (cx : Ctx) (seg : Segment) (sections : List Str) :
-    Nat → FileInfo → Str → Str → R (List Line)
-  | 0, _, _, _ => .error .diverge
-  | fuel + 1, file, sec, base =>
+    Nat → FileInfo → Str → Str → List Str → R (List Line)
+  | 0, _, _, _, _ => .error .diverge
+  | fuel + 1, file, sec, base, parents =>
+    if !shouldEmit cx.o file.cond then .ok [] else
+    if sec ∈ parents then .error (.err .cyclicSubgroups) else
     concatMapE (fun k =>
       -- emit_file(file, segment, k, sections, base)
       let body : R (List Line) :=
@@ -104,13 +106,13 @@ def emitEntry (cx : Ctx) (seg : Segment) (sections : List Str) :
             match liftPath (escapePath cx.o file.dir) with
             | .error e => .error e
             | .ok dir =>
-              concatMapE (fun child => emitEntry cx seg sections fuel child k (pathPush base dir)) file.files
+              concatMapE (fun child => emitEntry cx seg sections fuel child k (pathPush base dir) []) file.files
       match body with
       | .error e => .error e
       | .ok a =>
         let subs : R (List Line) :=
           if cx.refPartial || (file.sectionOrder.isEmpty && file.kind = .group) then .ok []
-          else concatMapE (fun other => emitEntry cx seg sections fuel file other base) (subgroupsOf seg k)
+          else concatMapE (fun other => emitEntry cx seg sections fuel file other base (sec :: parents)) (subgroupsOf seg k)
         match subs with
         | .error e => .error e
         | .ok b => .ok (a ++ b))
@@ -141,7 +143,7 @@ def emitSection (cx : Ctx) (seg : Segment) (sec : Str) (sections : List Str) : R
     match baseR with
     | .error e => .error e
     | .ok base =>
-      concatMapE (fun file => emitEntry cx seg sections (fuelFor seg) file sec base) seg.files
+      concatMapE (fun file => emitEntry cx seg sections (fuelFor seg) file sec base []) seg.files
 
 def kindName (seg : Segment) (noload : Bool) : Str :=
   seg.name ++ c!"_" ++ (if noload then c!"noload" else c!"alloc")
